@@ -21,6 +21,8 @@ engine.query {X:Type} query:!X = engine.Query;
 engine.queryShortened query:%(VectorTotal int) = engine.Query;
 vectorTotal {t:Type} total_count:int vector:%(Vector t) = VectorTotal t;
 ---functions---
+@any rpcDestActor#7568aabd {X:Type} actor_id:long query:!X = X;
+@any rpcDestFlags#e352035e {X:Type} flags:int query:!X = X;
 @read tree.get s:tree.string = json.Value;
 @read b.get#0badf010 e:b.Either = b.Pair;
 """
